@@ -484,10 +484,17 @@ def rule_funnel(rep: Report, repo: Repo) -> None:
     ok = False
     if tr:
         hs = tr[-1].handlers
-        ok = [handler_types(h)[0] for h in hs] == ['FlipJumpException', 'Exception'] and \
+        kinds = [handler_types(h) for h in hs]
+        sub = make_hierarchy(repo)
+        # first: library exceptions pass unchanged; last: everything else wrapped; in between only handlers that convert
+        # one specific builtin exception into a specific library exception (e.g. RecursionError)
+        ok = len(hs) >= 2 and kinds[0] == ['FlipJumpException'] and kinds[-1] == ['Exception'] and \
             isinstance(hs[0].body[0], ast.Raise) and (hs[0].body[0].exc is None or norm(hs[0].body[0].exc) == hs[0].name) and \
-            raised_class(hs[1].body[0]) == 'FlipJumpAssemblerException'          # type: ignore[arg-type]
-    rep.check(ok, 'C14.FUNNEL', 'assemble:handlers', 'FlipJumpException re-raised; Exception wrapped', f'{ASM}:{asm.lineno}')
+            raised_class(hs[-1].body[0]) == 'FlipJumpAssemblerException' and \
+            all(handler_converts(h, sub) == 'library' and not any(t in ('Exception', 'BaseException') for t in handler_types(h))
+                for h in hs[1:-1])          # type: ignore[arg-type]
+    rep.check(ok, 'C14.FUNNEL', 'assemble:handlers', 'FlipJumpException re-raised; specific conversions; Exception wrapped last',
+              f'{ASM}:{asm.lineno}')
 
 
 def check(rep: Report, repo: Optional[Repo] = None) -> None:
